@@ -1,4 +1,517 @@
-import AY.Spec.Plain
+/-
+  C04 — "!del / list replacement is exact; !merge makes it element-wise; !clear empties".
+
+  Statement (properties.jsonl): When the newer document's node at a path is deleting (tagged !del,
+  or a list, which deletes by default) and is not outranked, the merged content at that path is
+  exactly the newer node's content: every older entry is gone except those explicitly protected by
+  a strictly higher priority, at any depth. Tagging it !merge instead makes mappings and lists
+  combine key-wise / index-wise, a value-less !del removes the key, and !clear leaves an empty
+  container of the original kind.
+
+  The theorems are about `compMerge` / `mergeStep` / `mergeLoop` / `mergeF` / `merge`
+  (AY.Model.Merge), `premergeF` (AY.Model.Build) and, for the end-to-end examples and the known
+  finding D18, `construct` + `flatten`.  Auxiliary definitions (AY/Lemmas/C04Filter.lean,
+  C04Merge.lean): `wfKeys` (list children numbered 0..n-1, hereditarily), `noneKeptList` (the
+  `maybe_keep` condition fails for every node strictly below), `prioLe b` / `prioGe b` (every
+  effective priority of a tree is ≤ b / ≥ b), `keptChildren` (what `filter_nodes` leaves in a
+  mapping), `stepRemoves` (the loop body ends in `remove_child`), `noExplicitDel`, `newKeys`.
+-/
+import AY.Lemmas.C04Protect
+import AY.Lemmas.C04List
+import AY.Lemmas.C02Fold
 namespace AY
-theorem C04_placeholder : foldUpd [] = .error .value := rfl
+
+/-! ### Concrete inputs used by the non-vacuity examples -/
+
+/-- children of `{p: 1, q: {z: 2}}` -/
+def c04Scs : List (Key × Node) :=
+  [(.str "p", .leaf {} (.scalar (.int 1))),
+   (.str "q", .comp {} .dict [(.str "z", .leaf {} (.scalar (.int 2)))])]
+
+/-- children of `{p: !force 1, q: {z: 2, y: !force 3}, r: [4]}` -/
+def c04Pcs : List (Key × Node) :=
+  [(.str "p", .leaf { prio := some 1 } (.scalar (.int 1))),
+   (.str "q", .comp {} .dict [(.str "z", .leaf {} (.scalar (.int 2))),
+                              (.str "y", .leaf { prio := some 1 } (.scalar (.int 3)))]),
+   (.str "r", .comp {} .list [(.int 0, .leaf { iDel := some true } (.scalar (.int 4)))])]
+
+/-- `!del {q: {w: 3}, n: [5]}` as the loader builds it -/
+def c04O : Node :=
+  .comp { del := some true } .dict
+    [(.str "q", .comp { iDel := some true } .dict [(.str "w", .leaf { iDel := some true } (.scalar (.int 3)))]),
+     (.str "n", .comp { iDel := some true } .list [(.int 0, .leaf { iDel := some true } (.scalar (.int 5)))])]
+
+/-- `!merge {q: {w: 1}, n: 2}` -/
+def c04M : Node :=
+  .comp { del := some false } .dict
+    [(.str "q", .comp { iDel := some false } .dict [(.str "w", .leaf { iDel := some false } (.scalar (.int 1)))]),
+     (.str "n", .leaf { iDel := some false } (.scalar (.int 2)))]
+
+def c04Int (i : Int) : Raw := .scalar .none {} (.lit (.int i))
+
+/-- parse each document and fold them with `Builder.flatten` -/
+def c04Build (docs : List Raw) : Except Err Plain :=
+  match constructDocs (docs.map (fun r => (({} : Env), r))) with
+  | .error e => .error e
+  | .ok ns => (flatten ns).map native
+
+/-! ### !clear -/
+
+/- "!clear leaves an empty container of the original kind": the pre-merge pass of a `!clear` leaf
+   found at `path` of the stage, with the accumulated tree `root` holding a container there,
+   returns that container with the same flags, the same class and no children (not the same
+   object as the leaf), and empties it in place in the accumulated tree. -/
+theorem C04_clear_empties_same_kind (fuel : Nat) (f : Flags) (path : Path) (root : Node)
+    (cf : Flags) (ck : CompKind) (cs : List (Key × Node))
+    (h : getNode root path = some (.comp cf ck cs)) :
+    premergeF (fuel + 1) (.leaf f .clear) path (some root) =
+        .ok (.comp cf ck [], false, some (setNodeAt root path (.comp cf ck []))) ∧
+      getNode (setNodeAt root path (.comp cf ck [])) path = some (.comp cf ck []) ∧
+      native (.comp cf ck []) = (if ck.isDictFam then .dict [] else .list []) := by
+  refine ⟨by simp only [premergeF, h], getNode_setNodeAt _ path root _ h, ?_⟩
+  cases hk : ck.isDictFam <;> simp [native, hk, nativeList, nativeVals]
+
+example : getNode (.comp {} .dict [(.str "a", .comp {} .dict c04Pcs)]) [.str "a", .str "r"] =
+    some (.comp {} .list [(.int 0, .leaf { iDel := some true } (.scalar (.int 4)))]) := rfl
+-- end to end: `{a: {p: 1, q: {z: 2}}}` ← `{a: {q: !clear}}` gives `{a: {p: 1, q: {}}}`
+example : c04Build [.map .none {} [(.str "a", .map .none {} [(.str "p", c04Int 1),
+      (.str "q", .map .none {} [(.str "z", c04Int 2)])])],
+    .map .none {} [(.str "a", .map .none {} [(.str "q", .scalar .clear {} .empty)])]] =
+    .ok (.dict [(.str "a", .dict [(.str "p", .scalar (.int 1)), (.str "q", .dict [])])]) := rfl
+
+/- "!clear …": there is nothing to empty — the path is missing in the accumulated tree, addresses
+   a leaf, or there is no accumulated tree yet (first stage): PremergeError. -/
+theorem C04_clear_error (fuel : Nat) (f : Flags) (path : Path) :
+    (∀ root, getNode root path = none →
+      premergeF (fuel + 1) (.leaf f .clear) path (some root) = .error .premerge) ∧
+    (∀ root lf lk, getNode root path = some (.leaf lf lk) →
+      premergeF (fuel + 1) (.leaf f .clear) path (some root) = .error .premerge) ∧
+    premergeF (fuel + 1) (.leaf f .clear) path none = .error .premerge := by
+  refine ⟨?_, ?_, rfl⟩
+  · intro root h; simp only [premergeF, h]
+  · intro root lf lk h; simp only [premergeF, h]
+
+example : getNode (.comp {} .dict c04Pcs) [.str "zz"] = none := rfl
+example : getNode (.comp {} .dict c04Pcs) [.str "p"] = some (.leaf { prio := some 1 } (.scalar (.int 1))) := rfl
+
+/-! ### a deleting node replaces exactly -/
+
+/- "When the newer document's node at a path is deleting … and is not outranked, the merged content
+   at that path is exactly the newer node's content: every older entry is gone": for ANY composed
+   `self` (well-numbered lists below it) and ANY deleting composed `other` that has priority over
+   `self`, if no node strictly below `self` outranks its deepest existing counterpart in `other`
+   (`maybe_keep` fails everywhere) and nothing below `other` is `!notnew`, the merge takes the
+   early exit: `other` (flags: `_replace_other` with `self`'s) is promoted against the EMPTIED
+   `self`, and the result is not the `self` object.  `rec` (the recursive merge) is never called. -/
+theorem C04_del_exact (rec : Node → Node → Except Err (Node × Bool)) (sf of : Flags)
+    (sk ok : CompKind) (scs ocs : List (Key × Node))
+    (hwf : wfKeys (.comp sf sk scs) = true)
+    (hdel : eDel (.comp of ok ocs) = true)
+    (hprio : hasPrio of sf true = true)
+    (hnone : noneKeptList (maybeKeep (.comp of ok ocs)) [] scs = true)
+    (hnew : reqNewList [] [] ocs = none) :
+    compMerge rec sf sk scs (.comp of ok ocs) =
+      match maybePromote (replaceOtherFlags of sf) ok ocs (.comp sf sk []) with
+      | .error e => .error e
+      | .ok (res, same) => .ok (res, !same) := by
+  rw [compMerge_del_emptied rec hdel hprio (filterNode_noneKept_comp _ [] hwf hnone),
+    reqNew_root_excepted _ hnew]
+  rfl
+
+example : wfKeys (.comp {} .dict c04Scs) = true ∧ eDel c04O = true ∧
+    hasPrio c04O.flags ({} : Flags) true = true ∧
+    noneKeptList (maybeKeep c04O) [] c04Scs = true ∧ reqNewList [] [] c04O.children = none := by decide
+
+/- "… the merged content at that path is exactly the newer node's content" for a plain mapping or
+   list `self` (and in general whenever the two classes coincide): the result IS `other` with the
+   flags `_replace_other` — same class, same children, hence the same data. -/
+theorem C04_del_exact_plain (rec : Node → Node → Except Err (Node × Bool)) (sf of : Flags)
+    (sk ok : CompKind) (scs ocs : List (Key × Node))
+    (hsk : sk = .dict ∨ sk = .list ∨ ok.sameClass sk = true)
+    (hwf : wfKeys (.comp sf sk scs) = true)
+    (hdel : eDel (.comp of ok ocs) = true)
+    (hprio : hasPrio of sf true = true)
+    (hnone : noneKeptList (maybeKeep (.comp of ok ocs)) [] scs = true)
+    (hnew : reqNewList [] [] ocs = none) :
+    compMerge rec sf sk scs (.comp of ok ocs) = .ok (.comp (replaceOtherFlags of sf) ok ocs, false) ∧
+      native (.comp (replaceOtherFlags of sf) ok ocs) = native (.comp of ok ocs) := by
+  refine ⟨?_, native_comp_flags _ _ _ _⟩
+  rw [C04_del_exact rec sf of sk ok scs ocs hwf hdel hprio hnone hnew]
+  rcases hsk with h | h | h
+  · rw [maybePromote_emptied_plain _ _ _ _ _ (.inl h)]; rfl
+  · rw [maybePromote_emptied_plain _ _ _ _ _ (.inr h)]; rfl
+  · rw [maybePromote_emptied_same _ _ _ _ _ h]; rfl
+
+example := C04_del_exact_plain (mergeF 0) {} c04O.flags .dict .dict c04Scs c04O.children
+  (.inl rfl) (by decide) (by decide) (by decide) (by decide) (by decide)
+
+/- "… and is not outranked": a decidable sufficient condition — a bound `b` with every effective
+   priority of `self` ≤ b ≤ every effective priority of `other` (e.g. no priority tag anywhere) —
+   discharges both priority hypotheses.  With it the full dispatching merge `mergeF` of a plain
+   mapping or list `self` with a deleting `other` is `other` with the flags `_replace_other`
+   (for a list `self` the pre-filter `keep_if_exists` of ConfigList keeps all of `other`). -/
+theorem C04_del_exact_prio (fuel : Nat) (b : Int) (sf of : Flags) (sk ok : CompKind)
+    (scs ocs : List (Key × Node))
+    (hsk : sk = .dict ∨ sk = .list)
+    (hwf : wfKeys (.comp sf sk scs) = true)
+    (hdel : eDel (.comp of ok ocs) = true)
+    (hle : prioLe b (.comp sf sk scs) = true) (hge : prioGe b (.comp of ok ocs) = true)
+    (hnew : reqNewList [] [] ocs = none) :
+    mergeF (fuel + 1) (.comp sf sk scs) (.comp of ok ocs) =
+        .ok (.comp (replaceOtherFlags of sf) ok ocs, false) ∧
+      merge (.comp sf sk scs) (.comp of ok ocs) = .ok (.comp (replaceOtherFlags of sf) ok ocs) := by
+  have hle' : ePrio sf ≤ b ∧ prioLeList b scs = true := by simpa [prioLe] using hle
+  have hge' : b ≤ ePrio of ∧ prioGeList b ocs = true := by simpa [prioGe] using hge
+  have hprio : hasPrio of sf true = true := hasPrio_true_of_ge (by omega)
+  have hnone := noneKeptList_of_prio hge [] scs hle'.2
+  have main : ∀ rec, compMerge rec sf sk scs (.comp of ok ocs) =
+      .ok (.comp (replaceOtherFlags of sf) ok ocs, false) := fun rec =>
+    (C04_del_exact_plain rec sf of sk ok scs ocs
+      (hsk.elim .inl (fun h => .inr (.inl h))) hwf hdel hprio hnone hnew).1
+  have hm : ∀ n, mergeF (n + 1) (.comp sf sk scs) (.comp of ok ocs) =
+      .ok (.comp (replaceOtherFlags of sf) ok ocs, false) := by
+    intro n
+    rcases hsk with h | h
+    · subst h; exact main _
+    · subst h
+      have hall : allKept (keepIfExists (.comp sf .list scs)) [] (.comp of ok ocs) = true :=
+        allKept_of_prio hle [] _ hge
+      simp only [mergeF, listMerge, hdel, Bool.not_true, Bool.and_false, Bool.false_and,
+        Bool.false_eq_true, if_false, filterNode_allKept _ [] _ hall]
+      exact main _
+  refine ⟨hm fuel, ?_⟩
+  simp only [merge, hm]
+
+-- `{p: 1, q: {z: 2}}` ← `!del {q: {w: 3}, n: [5]}`: no priority tag anywhere, bound 0
+example := C04_del_exact_prio 0 0 {} c04O.flags .dict .dict c04Scs c04O.children
+  (.inl rfl) (by decide) (by decide) (by decide) (by decide) (by decide)
+-- end to end: `{a: {p: 1, q: {z: 2}}}` ← `{a: !del {q: 3}}` gives `{a: {q: 3}}`;
+-- a list replaces a mapping wholesale: ← `{a: [7]}` gives `{a: [7]}`
+example : c04Build [.map .none {} [(.str "a", .map .none {} [(.str "p", c04Int 1),
+      (.str "q", .map .none {} [(.str "z", c04Int 2)])])],
+    .map .none {} [(.str "a", .map .plain { del := some true } [(.str "q", c04Int 3)])]] =
+    .ok (.dict [(.str "a", .dict [(.str "q", .scalar (.int 3))])]) := rfl
+example : c04Build [.map .none {} [(.str "a", .map .none {} [(.str "p", c04Int 1)])],
+    .map .none {} [(.str "a", .seq .none {} [c04Int 7])]] =
+    .ok (.dict [(.str "a", .list [.scalar (.int 7)])]) := rfl
+
+/- "… (a nested !new re-allows creation)": the only way the early exit fails is `allow_new`: when
+   some node below `other` is `!notnew` and its path is not among the removed ones, the merge is a
+   MergeError naming the first such path. -/
+theorem C04_del_exact_notnew (rec : Node → Node → Except Err (Node × Bool)) (sf of : Flags)
+    (sk ok : CompKind) (scs ocs : List (Key × Node)) (p : Path)
+    (hwf : wfKeys (.comp sf sk scs) = true)
+    (hdel : eDel (.comp of ok ocs) = true)
+    (hprio : hasPrio of sf true = true)
+    (hnone : noneKeptList (maybeKeep (.comp of ok ocs)) [] scs = true)
+    (hnew : reqNew ([] :: (filterNode (maybeKeep (.comp of ok ocs)) [] (.comp sf sk scs)).2) []
+      (.comp of ok ocs) = some p) :
+    compMerge rec sf sk scs (.comp of ok ocs) = .error (.notnew p) := by
+  rw [compMerge_del_emptied rec hdel hprio (filterNode_noneKept_comp _ [] hwf hnone), hnew]
+
+-- `{p: 1}` ← `!del {n: !notnew 2}`: the new key `n` is refused
+example : reqNew ([] :: (filterNode (maybeKeep (.comp { del := some true } .dict
+      [(.str "n", .leaf { iNew := some false } (.scalar (.int 2)))])) []
+      (.comp {} .dict [(.str "p", .leaf {} (.scalar (.int 1)))])).2) []
+    (.comp { del := some true } .dict [(.str "n", .leaf { iNew := some false } (.scalar (.int 2)))]) =
+    some [.str "n"] := by decide
+
+/-! ### protected entries survive -/
+
+/- "every older entry is gone except those explicitly protected by a strictly higher priority, at
+   any depth": for a mapping `self` with distinct keys and a deleting `other`, `filter_nodes`
+   leaves exactly `keptChildren (maybe_keep)`; when something survives (or `other` does not have
+   priority) the merge continues with the ordinary key loop over the survivors only. -/
+theorem C04_del_protected_dict (rec : Node → Node → Except Err (Node × Bool)) (sf of : Flags)
+    (sk ok : CompKind) (scs ocs : List (Key × Node))
+    (hdel : eDel (.comp of ok ocs) = true) (hsk : sk.isDictFam = true) (hn : keysNodup scs = true)
+    (hkept : keptChildren (maybeKeep (.comp of ok ocs)) [] scs ≠ [] ∨ hasPrio of sf true = false) :
+    (filterNode (maybeKeep (.comp of ok ocs)) [] (.comp sf sk scs)).1 =
+        .comp sf sk (keptChildren (maybeKeep (.comp of ok ocs)) [] scs) ∧
+    compMerge rec sf sk scs (.comp of ok ocs) =
+      match mergeLoop rec sf sk (keptChildren (maybeKeep (.comp of ok ocs)) [] scs) ocs with
+      | .error e => .error e
+      | .ok scs' => finishMerge sf sk scs' (.comp of ok ocs) := by
+  refine ⟨filterNode_dict_kept _ _ sf sk scs hsk hn, ?_⟩
+  rw [compMerge_del_dict rec hdel hsk hn]
+  have : ((keptChildren (maybeKeep (.comp of ok ocs)) [] scs).isEmpty && hasPrio of sf true) = false := by
+    rcases hkept with h | h
+    · cases hc : keptChildren (maybeKeep (.comp of ok ocs)) [] scs with
+      | nil => exact absurd hc h
+      | cons a r => rfl
+    · simp [h]
+  rw [this]
+  rfl
+
+example : keysNodup c04Pcs = true ∧ keptChildren (maybeKeep c04O) [] c04Pcs ≠ [] := by decide
+-- `{p: !force 1, q: {z: 2, y: !force 3}, r: [4]}` ← `!del {q: {w: 3}, n: [5]}`: `p` survives, `q.y`
+-- protects `q` (which loses `z`), `r` goes
+example : akeys (keptChildren (maybeKeep c04O) [] c04Pcs) = [.str "p", .str "q"] := by decide
+example : ((mergeF 3 (.comp {} .dict c04Pcs) c04O).map (fun r => native r.1)) =
+    .ok (.dict [(.str "p", .scalar (.int 1)),
+      (.str "q", .dict [(.str "y", .scalar (.int 3)), (.str "w", .scalar (.int 3))]),
+      (.str "n", .list [.scalar (.int 5)])]) := rfl
+
+/- "… except those explicitly protected by a strictly higher priority, at any depth" — the kept
+   key set of one level: a key of `self` survives iff its child itself outranks its deepest
+   existing counterpart in `other` (`maybe_keep`), or the child is a container in which something
+   survives (recursively the same criterion). -/
+theorem C04_del_protected_keys (o : Node) (scs : List (Key × Node)) (hn : keysNodup scs = true) (k : Key) :
+    k ∈ akeys (keptChildren (maybeKeep o) [] scs) ↔
+      ∃ c, alookup k scs = some c ∧
+        (maybeKeep o [k] c = true ∨
+          (c.isComp = true ∧ (filterNode (maybeKeep o) [k] c).1.children ≠ [])) := by
+  simpa using mem_akeys_keptChildren (maybeKeep o) [] k scs hn
+
+example : maybeKeep c04O [.str "p"] (.leaf { prio := some 1 } (.scalar (.int 1))) = true := by decide
+example : maybeKeep c04O [.str "q"] (.comp {} .dict []) = false := by decide
+
+/- "… protected by a strictly higher priority, at any depth": for a child `c` made of mappings with
+   distinct keys, something of `c` survives the filter iff some node strictly below `c` (at an
+   existing path `k :: q` of `self`) has an effective priority STRICTLY above that of its deepest
+   existing counterpart in `other` (`get_first_not_missing_node`). -/
+theorem C04_del_protected_any_depth (o : Node) (k : Key) (c : Node) (hd : dictTree c = true) :
+    (filterNode (maybeKeep o) [k] c).1.children ≠ [] ↔
+      ∃ q m, q ≠ [] ∧ getNode c q = some m ∧
+        ePrio (firstNotMissing o (k :: q)).flags < ePrio m.flags := by
+  rw [c04_filter_nonempty_iff (maybeKeep o) [k] c hd]
+  have hk : ∀ (p : Path) (m : Node), maybeKeep o p m = true ↔
+      ePrio (firstNotMissing o p).flags < ePrio m.flags := by
+    intro p m
+    simp only [maybeKeep, hasPrio]
+    split
+    · rename_i he; simp [he]
+    · simp
+  constructor
+  · rintro ⟨q, m, hq, hg, hc⟩
+    exact ⟨q, m, hq, hg, (hk _ m).1 (by simpa using hc)⟩
+  · rintro ⟨q, m, hq, hg, hc⟩
+    exact ⟨q, m, hq, hg, by simpa using (hk _ m).2 hc⟩
+
+example : dictTree (.comp {} .dict [(.str "z", .leaf {} (.scalar (.int 2))),
+    (.str "y", .leaf { prio := some 1 } (.scalar (.int 3)))]) = true := by decide
+example : getNode (.comp {} .dict [(.str "z", .leaf {} (.scalar (.int 2))),
+    (.str "y", .leaf { prio := some 1 } (.scalar (.int 3)))]) [.str "y"] =
+    some (.leaf { prio := some 1 } (.scalar (.int 3))) := rfl
+example : ePrio (firstNotMissing c04O [.str "q", .str "y"]).flags < ePrio ({ prio := some 1 } : Flags) := by
+  decide
+
+/- "… at any depth": conversely nothing survives in a subtree none of whose nodes outranks its
+   counterpart — the filtered container is empty (any classes, well-numbered lists). -/
+theorem C04_del_unprotected_emptied (o : Node) (pre : Path) (f : Flags) (k : CompKind)
+    (cs : List (Key × Node)) (hwf : wfKeys (.comp f k cs) = true)
+    (hnone : noneKeptList (maybeKeep o) pre cs = true) :
+    (filterNode (maybeKeep o) pre (.comp f k cs)).1 = .comp f k [] :=
+  filterNode_noneKept_comp _ pre hwf hnone
+
+example : noneKeptList (maybeKeep c04O) [.str "r"] [(.int 0, .leaf { iDel := some true } (.scalar (.int 4)))] = true := by
+  decide
+
+/-! ### !merge: key-wise -/
+
+/- "Tagging it !merge instead makes mappings and lists combine key-wise / index-wise": a
+   non-deleting composed `other` never filters `self`; the merge is the key loop over ALL children
+   of `self` followed by the flag/class bookkeeping of `finishMerge`. -/
+theorem C04_merge_keywise (rec : Node → Node → Except Err (Node × Bool)) (sf of : Flags)
+    (sk ok : CompKind) (scs ocs : List (Key × Node)) (hlive : eDel (.comp of ok ocs) = false) :
+    compMerge rec sf sk scs (.comp of ok ocs) =
+      match mergeLoop rec sf sk scs ocs with
+      | .error e => .error e
+      | .ok scs' => finishMerge sf sk scs' (.comp of ok ocs) := by
+  simp only [compMerge, hlive, Bool.false_eq_true, if_false]
+  rfl
+
+example : eDel c04M = false := by decide
+
+/- "… combine key-wise" — the precise effect of one loop iteration on the key list of a mapping:
+   the key is removed exactly when the iteration ends in `remove_child` (`stepRemoves`: an
+   explicitly deleted container that came out empty and is not outranked, or an explicit `!del`
+   falsy leaf replacing a leaf), a missing key is appended at the end, anything else leaves the
+   key list (and the position of the key) unchanged. -/
+theorem C04_merge_step_keys (rec : Node → Node → Except Err (Node × Bool)) (sf : Flags) (sk : CompKind)
+    (hsk : sk.isDictFam = true) (acc acc' : List (Key × Node)) (kv : Key × Node)
+    (h : mergeStep rec sf sk acc kv = .ok acc') :
+    akeys acc' =
+      if stepRemoves rec sk acc kv then (akeys acc).erase kv.1
+      else if kv.1 ∈ akeys acc then akeys acc else akeys acc ++ [kv.1] :=
+  mergeStep_keys rec hsk h
+
+example : ∃ acc', mergeStep (mergeF 2) {} .dict c04Scs (.str "n", .leaf {} (.scalar (.int 2))) = .ok acc' :=
+  ⟨_, rfl⟩
+
+/- "… combine key-wise": mapping ⊕ non-deleting mapping whose values carry no explicit `!del` (so
+   no iteration removes a key): on success the result is the `self` object and its keys are the
+   keys of `self` in their order followed by the new keys of `other` in their order (`newKeys`:
+   those not yet present, once each). -/
+theorem C04_merge_keys (fuel : Nat) (sf of : Flags) (scs ocs : List (Key × Node)) (r : Node) (s : Bool)
+    (hlive : eDel (.comp of .dict ocs) = false) (hnd : noExplicitDel ocs = true)
+    (h : mergeF (fuel + 1) (.comp sf .dict scs) (.comp of .dict ocs) = .ok (r, s)) :
+    akeys r.children = akeys scs ++ newKeys (akeys scs) (akeys ocs) ∧ s = true := by
+  simp only [mergeF] at h
+  rw [C04_merge_keywise _ sf of .dict .dict scs ocs hlive] at h
+  cases hl : mergeLoop (mergeF fuel) sf .dict scs ocs with
+  | error e => simp [hl] at h
+  | ok scs' =>
+    simp only [hl] at h
+    obtain ⟨h1, h2⟩ := finishMerge_dict_keys sf of scs' ocs r s h
+    rw [h1, mergeLoop_keys (mergeF fuel) (mergeF_delFaithful fuel) rfl ocs scs scs' hnd hl]
+    exact ⟨rfl, h2⟩
+
+example : noExplicitDel c04M.children = true := by decide
+example : ((mergeF 3 (.comp {} .dict c04Scs) c04M).map (fun r => akeys r.1.children)) =
+    .ok [.str "p", .str "q", .str "n"] := rfl
+example : newKeys [.str "p", .str "q"] [.str "q", .str "n", .str "n"] = [.str "n"] := by decide
+
+/- "… common keys merged" (recursively, by the same merge): in the loop of a mapping with a newer
+   mapping with distinct keys and no explicit `!del` values, a key present on both sides ends up
+   holding the result of merging the two old values (re-adopted when it is a new object). -/
+theorem C04_merge_common (fuel : Nat) (sf : Flags) (sk : CompKind) (hsk : sk.isDictFam = true)
+    (scs ocs scs' : List (Key × Node)) (hnd : noExplicitDel ocs = true) (hn : keysNodup ocs = true)
+    (h : mergeLoop (mergeF fuel) sf sk scs ocs = .ok scs')
+    (k : Key) (c v : Node) (hc : alookup k scs = some c) (hv : alookup k ocs = some v) :
+    ∃ nw same, mergeF fuel c v = .ok (nw, same) ∧
+      alookup k scs' = some (if same then nw else adopt sf sk nw) ∧
+      (alookup k scs').map native = some (native nw) := by
+  obtain ⟨nw, same, h1, h2⟩ :=
+    mergeLoop_common (mergeF fuel) (mergeF_delFaithful fuel) hsk ocs scs scs' hnd hn h k c v hc hv
+  refine ⟨nw, same, h1, h2, ?_⟩
+  rw [h2]
+  cases same <;> simp [native_adopt]
+
+example : keysNodup c04M.children = true ∧ (alookup (.str "q") c04Scs).isSome = true ∧
+    (alookup (.str "q") c04M.children).isSome = true := by decide
+-- end to end, mapping: `{a: {p: 1, q: {z: 2}}}` ← `{a: !merge {q: {w: 1}, n: 2}}`
+example : c04Build [.map .none {} [(.str "a", .map .none {} [(.str "p", c04Int 1),
+      (.str "q", .map .none {} [(.str "z", c04Int 2)])])],
+    .map .none {} [(.str "a", .map .plain { del := some false } [
+      (.str "q", .map .none {} [(.str "w", c04Int 1)]), (.str "n", c04Int 2)])]] =
+    .ok (.dict [(.str "a", .dict [(.str "p", .scalar (.int 1)),
+      (.str "q", .dict [(.str "z", .scalar (.int 2)), (.str "w", .scalar (.int 1))]),
+      (.str "n", .scalar (.int 2))])]) := rfl
+/- "… and lists combine … index-wise": the key loop of a list-family `self` whose children are
+   numbered 0..n-1 with the children of a newer list numbered 0..m-1 (no explicit `!del` element):
+   on success the result is again numbered, has length max n m, position i < min n m holds the
+   recursive merge of the two old elements, positions n ≤ i < m hold the (adopted) newer elements,
+   positions m ≤ i < n keep the old elements. -/
+theorem C04_merge_indexwise (fuel : Nat) (sf : Flags) (sk : CompKind) (hsk : sk.isDictFam = false)
+    (scs ocs scs' : List (Key × Node)) (hks : listKeys 0 scs = true) (hko : listKeys 0 ocs = true)
+    (hnd : noExplicitDel ocs = true)
+    (h : mergeLoop (mergeF fuel) sf sk scs ocs = .ok scs') :
+    listKeys 0 scs' = true ∧ scs'.length = max scs.length ocs.length ∧
+    (∀ (i : Nat) (v : Node), alookup (.int (i : Int)) ocs = some v →
+      if i < scs.length then
+        ∃ c nw same, alookup (.int (i : Int)) scs = some c ∧ mergeF fuel c v = .ok (nw, same) ∧
+          alookup (.int (i : Int)) scs' = some (if same then nw else adopt sf sk nw)
+      else alookup (.int (i : Int)) scs' = some (adopt sf sk v)) ∧
+    (∀ i : Nat, ocs.length ≤ i → alookup (.int (i : Int)) scs' = alookup (.int (i : Int)) scs) := by
+  obtain ⟨r1, r2, r3, r4⟩ := c04_mergeLoop_list (mergeF fuel) (mergeF_delFaithful fuel) hsk ocs 0 scs scs'
+    hks hko (Nat.zero_le _) hnd h
+  refine ⟨r1, by simpa using r2, r4, ?_⟩
+  intro i hi
+  exact r3 i (listKeys_lookup_none 0 ocs i hko (.inr (by omega)))
+
+example : ∃ scs', mergeLoop (mergeF 1) {} .list
+    [(.int 0, .leaf { iDel := some true } (.scalar (.int 1))), (.int 1, .leaf { iDel := some true } (.scalar (.int 2)))]
+    [(.int 0, .leaf { iDel := some false } (.scalar (.int 7))), (.int 1, .leaf { iDel := some false } (.scalar (.int 8))),
+     (.int 2, .leaf { iDel := some false } (.scalar (.int 9)))] = .ok scs' := ⟨_, rfl⟩
+-- end to end, list ("index-wise"): `{a: [1, 2, 3]}` ← `{a: !merge [9]}` gives `[9, 2, 3]`;
+-- ← `{a: !merge [7, 8, 9, 10]}` gives `[7, 8, 9, 10]`
+example : c04Build [.map .none {} [(.str "a", .seq .none {} [c04Int 1, c04Int 2, c04Int 3])],
+    .map .none {} [(.str "a", .seq .plain { del := some false } [c04Int 9])]] =
+    .ok (.dict [(.str "a", .list [.scalar (.int 9), .scalar (.int 2), .scalar (.int 3)])]) := rfl
+example : c04Build [.map .none {} [(.str "a", .seq .none {} [c04Int 1, c04Int 2, c04Int 3])],
+    .map .none {} [(.str "a", .seq .plain { del := some false } [c04Int 7, c04Int 8, c04Int 9, c04Int 10])]] =
+    .ok (.dict [(.str "a", .list [.scalar (.int 7), .scalar (.int 8), .scalar (.int 9), .scalar (.int 10)])]) := rfl
+
+/-! ### a value-less !del removes the key -/
+
+/- "a value-less !del removes the key": in the key loop (any parent class), when the existing child
+   is a leaf and the newer value is a leaf tagged `!del` that is falsy (an empty / null scalar) and
+   is not outranked by the child, the iteration is `remove_child(key)`; in a mapping with distinct
+   keys the key is gone afterwards. -/
+theorem C04_del_null_removes_key (fuel : Nat) (sf : Flags) (sk : CompKind) (acc : List (Key × Node))
+    (k : Key) (cf vf : Flags) (ck vk : LeafKind)
+    (hget : getChild sk k acc = some (.leaf cf ck))
+    (hdel : vf.del = some true) (hfalsy : vk.truthy = false) (hwins : hasPrio cf vf false = false) :
+    mergeStep (mergeF (fuel + 1)) sf sk acc (k, .leaf vf vk) = removeChildE sf sk k acc ∧
+      (sk.isDictFam = true → keysNodup acc = true →
+        removeChildE sf sk k acc = .ok (aerase k acc) ∧ alookup k (aerase k acc) = none) := by
+  constructor
+  · apply mergeStep_leaf_removed (mergeF (fuel + 1)) sf sk acc k (.leaf vf vk) (.leaf cf ck)
+      (.leaf (replaceOtherFlags vf cf) vk) hget rfl
+    · simp [mergeF, leafRule, Node.flags, hwins, Node.setFlags]
+    · rfl
+    · simpa [Node.truthy] using hfalsy
+    · simpa [Node.flags, replaceOtherFlags, mergeSafe] using hdel
+  · intro hsk hn
+    have hsome : (alookup k acc).isSome = true := by
+      rw [getChild_dict hsk] at hget; simp [hget]
+    exact ⟨removeChildE_dictFam hsk k acc hsome, alookup_aerase_self k acc hn⟩
+
+example : getChild .dict (.str "p") c04Scs = some (.leaf {} (.scalar (.int 1))) := rfl
+example : (LeafKind.scalar .null).truthy = false ∧
+    hasPrio ({} : Flags) { del := some true } false = false := by decide
+-- end to end: `{a: {p: 1, q: {z: 2}}}` ← `{a: {p: !del}}` gives `{a: {q: {z: 2}}}`
+example : c04Build [.map .none {} [(.str "a", .map .none {} [(.str "p", c04Int 1),
+      (.str "q", .map .none {} [(.str "z", c04Int 2)])])],
+    .map .none {} [(.str "a", .map .none {} [(.str "p", .scalar .plain { del := some true } .empty)])]] =
+    .ok (.dict [(.str "a", .dict [(.str "q", .dict [(.str "z", .scalar (.int 2))])])]) := rfl
+
+/- "a value-less !del removes the key" — composed child: when the existing child is a plain mapping
+   or list none of whose priorities exceeds that of the newer value, and the newer value is an
+   explicitly `!del` EMPTY container (not a function node), the child is emptied by the early exit
+   and the iteration is `remove_child(key)`. -/
+theorem C04_del_empty_container_removes_key (fuel : Nat) (sf : Flags) (sk : CompKind)
+    (acc : List (Key × Node)) (k : Key) (cf vf : Flags) (ck vk : CompKind) (ccs : List (Key × Node))
+    (hget : getChild sk k acc = some (.comp cf ck ccs))
+    (hck : ck = .dict ∨ ck = .list) (hwf : wfKeys (.comp cf ck ccs) = true)
+    (hdel : vf.del = some true) (hvk : vk.isFunc = false)
+    (hle : prioLe (ePrio vf) (.comp cf ck ccs) = true) :
+    mergeStep (mergeF (fuel + 2)) sf sk acc (k, .comp vf vk []) = removeChildE sf sk k acc := by
+  have hd : eDel (.comp vf vk []) = true := eDel_of_explicit hdel
+  have hm := (C04_del_exact_prio fuel (ePrio vf) cf vf ck vk ccs [] hck hwf hd hle
+    (prioGe_empty vf vk) rfl).1
+  apply mergeStep_comp_removed (mergeF (fuel + 2)) sf sk acc k (.comp vf vk []) (.comp cf ck ccs)
+    (.comp (replaceOtherFlags vf cf) vk []) false hget rfl
+  · exact C04_del_exact_prio (fuel + 1) (ePrio vf) cf vf ck vk ccs [] hck hwf hd hle
+      (prioGe_empty vf vk) rfl |>.1
+  · simp [Node.truthy, hvk]
+  · exact hasPrio_false_of_le (by simp [Node.flags, ePrio, replaceOtherFlags, mergeSafe])
+  · exact hdel
+
+example : getChild .dict (.str "q") c04Scs = some (.comp {} .dict [(.str "z", .leaf {} (.scalar (.int 2)))]) := rfl
+example : prioLe (ePrio { del := some true }) (.comp {} .dict [(.str "z", .leaf {} (.scalar (.int 2)))]) = true := by
+  decide
+-- end to end: `{a: {p: 1, q: {z: 2}}}` ← `{a: {q: !del {}}}` gives `{a: {p: 1}}`
+example : c04Build [.map .none {} [(.str "a", .map .none {} [(.str "p", c04Int 1),
+      (.str "q", .map .none {} [(.str "z", c04Int 2)])])],
+    .map .none {} [(.str "a", .map .none {} [(.str "q", .map .plain { del := some true } [])])]] =
+    .ok (.dict [(.str "a", .dict [(.str "p", .scalar (.int 1))])]) := rfl
+
+/-! ### known finding D18: lists whose elements carry different priorities -/
+
+/- Known finding D18 — the exactness claim FAILS for a list with a protected element: on the model
+   (as on the real code) `a: [!force 1, 2]` ← `a: [8, 9]` gives `{a: [1]}`, not `{a: [1, 9]}`:
+   the outranked newer element `8` is removed by the pre-filter of ConfigList before the
+   index-wise merge, `9` shifts to index 0 and loses against `!force 1`. -/
+theorem C04_list_shift_counterexample :
+    c04Build [.map .none {} [(.str "a", .seq .none {} [.scalar .plain { prio := some 1 } (.lit (.int 1)), c04Int 2])],
+              .map .none {} [(.str "a", .seq .none {} [c04Int 8, c04Int 9])]] =
+        .ok (.dict [(.str "a", .list [.scalar (.int 1)])]) ∧
+    c04Build [.map .none {} [(.str "a", .seq .none {} [.scalar .plain { prio := some 1 } (.lit (.int 1)), c04Int 2])],
+              .map .none {} [(.str "a", .seq .none {} [c04Int 8, c04Int 9])]] ≠
+        .ok (.dict [(.str "a", .list [.scalar (.int 1), .scalar (.int 9)])]) := by
+  have h : c04Build [.map .none {} [(.str "a", .seq .none {} [.scalar .plain { prio := some 1 } (.lit (.int 1)), c04Int 2])],
+      .map .none {} [(.str "a", .seq .none {} [c04Int 8, c04Int 9])]] =
+      .ok (.dict [(.str "a", .list [.scalar (.int 1)])]) := rfl
+  refine ⟨h, ?_⟩
+  rw [h]
+  simp
+
+-- the hypotheses of the exactness theorems exclude it: the older list outranks the newer one
+example : noneKeptList (maybeKeep (.comp {} .list [(.int 0, .leaf { iDel := some true } (.scalar (.int 8))),
+      (.int 1, .leaf { iDel := some true } (.scalar (.int 9)))])) []
+    [(.int 0, .leaf { prio := some 1, iDel := some true } (.scalar (.int 1))),
+     (.int 1, .leaf { iDel := some true } (.scalar (.int 2)))] = false := by decide
+
 end AY
